@@ -88,8 +88,18 @@ def verify_item(item, timeout_ms=None):
                 if cr.status == "proved":
                     rep["status"] = "error"
                     rep["message"] = "canary: `False` is provable at a normal exit (inconsistent assumptions)"
+        n_unknown = 0
         for oname, pc, goal, okind, line in obs:
-            res = solve.prove(pc, goal, timeout_ms=timeout_ms)
+            # adaptive budget: once two obligations of a function are undecided the rest of
+            # that function is most likely hit by the same cause; do not spend the full
+            # budget (z3 + cvc5) on each of them.  On a tree where everything discharges this
+            # never triggers.
+            if n_unknown >= 2:
+                res = solve.prove(pc, goal, use_cvc5=False, timeout_ms=min(timeout_ms or 10 ** 9, 3000))
+            else:
+                res = solve.prove(pc, goal, timeout_ms=timeout_ms)
+            if res.status == "unknown":
+                n_unknown += 1
             rep["obligations"].append({
                 "name": oname, "key": strip_line(oname), "kind": okind, "line": line, "status": res.status,
                 "solver": res.solver, "seconds": round(res.seconds, 3), "reason": res.reason,
